@@ -46,7 +46,12 @@ def axis_case(draw):
     x = est.sanitize(row, x)
     N = x["n"]
     p = draw(est.params(row, N, cplx, windows=sorted(spectrum.window.window_names.keys())))
-    lo = max(N, est.min_nfft(row, N, p))
+    if row == "pcorrelogram" and draw(st.booleans()):
+        # the length/axis clause holds for every documented lag (lag < N), also when 2*lag+1 exceeds NFFT
+        p["lag"] = draw(st.integers(1, N - 1))
+        lo = N
+    else:
+        lo = max(N, est.min_nfft(row, N, p))
     nfft = draw(gen.nfft_at_least(lo, hi_mult=3, allow_none=(lo == N)))
     return {"row": row, "x": x, "params": p, "nfft": nfft, "sampling": draw(gen.sampling)}
 
@@ -91,6 +96,14 @@ def c02_axis(ctx, case):
     ctx.close(fr, exp, "%s: frequencies() vs k*sampling/NFFT" % row, rtol=1e-12, sig=sig)
     ctx.check(abs(obj.df - fs / float(nfft)) <= 1e-12 * fs, "%s: df=%r, expected %r" % (row, obj.df, fs / nfft), sig=sig)
     ctx.check(obj.sides == ("onesided" if real else "twosided"), "%s: default sides %r" % (row, obj.sides), sig=sig)
+    # the axis the object reports after its sampling frequency is changed (the first axis has been read above)
+    fs2 = 3.0 * fs
+    obj.sampling = fs2
+    fr2 = np.asarray(obj.frequencies(), dtype=float)
+    ctx.check(len(fr2) == len(np.asarray(obj.psd)), "%s: after sampling was changed frequencies() has %d entries, psd %d"
+              % (row, len(fr2), len(np.asarray(obj.psd))), sig=dict(sig, clause="axis-after-sampling-change"))
+    ctx.close(fr2, np.arange(L) * fs2 / float(nfft), "%s: frequencies() after sampling was changed from %g to %g vs k*sampling/NFFT"
+              % (row, fs, fs2), rtol=1e-12, sig=dict(sig, clause="axis-after-sampling-change"))
 
 
 # --------------------------------------------------------------------------
